@@ -70,10 +70,45 @@ class EffortDoesNotEnd(Exception):
 MAX_WAITS = 60
 
 
+class ForcedRandom:
+    """Stands in for the `random` module inside the client modules: every
+    draw comes out at the quantile q of its range.  Pinning the source to the
+    top (bottom) of its range must put the jittered wait at the top (bottom)
+    of the interval the documentation gives for it."""
+
+    def __init__(self, q):
+        import random as _r
+        self._r = _r
+        self.q = q
+        self.draws = 0
+
+    def random(self):
+        self.draws += 1
+        return self.q
+
+    def uniform(self, a, b):
+        self.draws += 1
+        return a + (b - a) * self.q
+
+    def __getattr__(self, name):
+        return getattr(self._r, name)
+
+
 class Scenario:
     def __init__(self, ctx, kind, params, pattern, nss, cause, abort_at=None,
-                 then=None):
+                 then=None, draw=None):
         self.ctx = ctx
+        self.draw = draw
+        self.forced = None
+        self._unforce = []
+        if draw is not None:
+            import socketio.async_client
+            import socketio.client
+            self.forced = ForcedRandom({'hi': 1.0 - 2 ** -40, 'lo': 0.0}[draw])
+            for m in (socketio.client, socketio.async_client):
+                if hasattr(m, 'random'):
+                    self._unforce.append((m, m.random))
+                    m.random = self.forced
         self.kind = kind
         self.params = params
         self.pattern = pattern
@@ -481,6 +516,19 @@ class Scenario:
             if not (base - rf - 1e-9 <= wv <= base + rf + 1e-9):
                 return self.fail('back-off wait #%d was %r, expected %r +- '
                                  '%r' % (k, wv, base, rf))
+            if self.forced is not None and self.forced.draws and rf > 0:
+                # the randomisation really spreads the waits over that
+                # interval: with the random source pinned to the top (bottom)
+                # of its range the wait is at the top (bottom) end
+                ctx.count('backoff_waits_checked_with_pinned_random_source')
+                end = base + rf if self.draw == 'hi' else base - rf
+                if abs(wv - end) > 0.02 * rf + 1e-9:
+                    return self.fail(
+                        'back-off wait #%d with the random source pinned to '
+                        'the %s of its range was %r; the documented interval '
+                        '%r +- %r ends at %r' % (
+                            k, 'top' if self.draw == 'hi' else 'bottom', wv,
+                            base, rf, end))
         # outcome
         c = h.c
         if want_success:
@@ -506,6 +554,9 @@ class Scenario:
         return True
 
     def close(self):
+        for m, orig in self._unforce:
+            m.random = orig
+        self._unforce = []
         self.h.close()
 
 
@@ -532,7 +583,9 @@ def run(ctx):
                 'position, follow-up)')
     ctx.assumptions = [
         'waits are observed at the wait primitive (virtual); jitter is '
-        'checked as a range',
+        'checked as a range, and - with the `random` module of the client '
+        'modules replaced by a source pinned to the top / bottom of its '
+        'range in half of the scenarios - for reaching both ends of it',
         'shutdown() during back-off is issued while the reconnect task is '
         'blocked in its wait (threaded: from inside the wait hook)']
     ctx.require('scenarios_judged', 300)
@@ -540,6 +593,7 @@ def run(ctx):
     ctx.require('overlapping_server_disconnects', 4)
     ctx.require('losses_with_slow_disconnect_handler', 4)
     ctx.require('backoff_waits_checked', 300)
+    ctx.require('backoff_waits_checked_with_pinned_random_source', 50)
     ctx.require('successful_reconnections', 50)
     ctx.require('efforts_given_up', 20)
     ctx.require('efforts_aborted', 20)
@@ -597,7 +651,9 @@ def run(ctx):
             ctx.extra['stopped_early'] = True
             break
         nss = NAMESPACE_SETS[(i // 3) % len(NAMESPACE_SETS)]
-        sc = Scenario(ctx, kind, params, p, nss, cause, abort_at, then)
+        sc = Scenario(ctx, kind, params, p, nss, cause, abort_at, then,
+                      draw=[None, 'hi', None, 'lo'][i % 4]
+                      if params[2] > 0 else None)
         try:
             ok = sc.run()
         finally:
